@@ -2,9 +2,11 @@
 sets Module._elaborated, and whether a scan of its source finds calls that change a Module in place.
 Run by tools/translate_tables.py (globals: repo, outdir, emit, die, src, cz, cstr, find_class, find_func, ...).
 
-`REWRITES_MODULES` is read from the class bodies in the SOURCE (ast; inherited along the textual base classes, default from
-ElabPass) and cross-checked against the live classes.  On a tree without the attribute (no sticky failure record, e.g. the
-pinned tree) `c08_has_failure_record` is false and every entry is written as rewriting; Props/C08.v then fails closed."""
+The repaired code records EVERY failure of a pass body on its Module (every pass counts as rewriting).  Should a tree
+declare exemptions through a class attribute `REWRITES_MODULES` (an earlier draft of the repair did), the flags are read from
+the class bodies in the SOURCE (ast; inherited along the textual base classes) and cross-checked against the live classes, and
+Props/C08.v requires every pass whose source changes Modules in place to be declared rewriting.  `c08_has_failure_record` says
+whether elaborate_module_base and the exporter raise a recorded `_elab_failure`; without it Props/C08.v fails closed."""
 import ast as _ast
 
 _FILES = {"Orphanage": "orphanage.py", "InstBundleElabPass": "inst_bundles.py", "ResolvePortRefs": "portrefs.py",
@@ -71,8 +73,8 @@ def _scan(cls):
 def _c08_passes():
     base = find_class(src("hdl21/elab/passes/base.py"), "ElabPass")
     default_flag = _class_flag(base)
-    has_record = default_flag is not None
-    if has_record and default_flag is not True:
+    has_attr = default_flag is not None
+    if has_attr and default_flag is not True:
         die("ElabPass.REWRITES_MODULES must default to True (unknown passes are treated as rewriting)")
     elab_tree = src("hdl21/elab/elab.py")
     f = find_func(elab_tree, "default", cls="Elaborator")
@@ -118,7 +120,7 @@ def _c08_passes():
         if c not in caches:
             caches.append(c)
         flag, found, marks, mark_last = resolve(nm)
-        if has_record and getattr(p, "REWRITES_MODULES", None) is not flag:
+        if has_attr and getattr(p, "REWRITES_MODULES", None) is not flag:
             die(f"{nm}.REWRITES_MODULES: source says {flag}, live class says {getattr(p, 'REWRITES_MODULES', None)}")
         if marks and not mark_last:
             die(f"{nm}: assignment of Module._elaborated is not the last statement of its function")
@@ -132,7 +134,11 @@ def _c08_passes():
                for n in _ast.walk(fnode)):
             uses += 1
     b = lambda x: "true" if x else "false"
-    body = (f"Definition c08_has_failure_record : bool := {b(has_record and uses == 2)}.\n"
+    # the record must be set where a pass body raises
+    fnode = find_func(src("hdl21/elab/passes/base.py"), "elaborate_module_base", cls="ElabPass")
+    sets = any(isinstance(n, _ast.Assign) and isinstance(n.targets[0], _ast.Attribute) and n.targets[0].attr == "_elab_failure"
+               for n in _ast.walk(fnode))
+    body = (f"Definition c08_has_failure_record : bool := {b(sets and uses == 2)}.\n"
             "(* entry name, cache index, REWRITES_MODULES, sets _elaborated, source scan finds in-place changes, what it found *)\n"
             "Definition c08_passes : list (string * nat * bool * bool * bool * string) :=\n  [" +
             ";\n   ".join(f"({cstr(n)}, {i}%nat, {b(rw)}, {b(mk)}, {b(mu)}, {cstr(what)})" for n, i, rw, mk, mu, what in rows) + "].\n")
